@@ -41,7 +41,7 @@ add("C13", "E4", "model_checking", E4T + ", checking the iterator protocol",
     "on every input of the C09 families: at most |x|+1 items, and after the first Err or None four further next() calls return None (hard call limit so a repeating error is reported, not looped on)", "§6 C13")
 
 add("C10", "E3", "model_checking", "exhaustive enumeration of file sequences x noise placements x sources x buffers x per-call target-type/read-next choices on the real SmlReader against the abstract files put in",
-    "file sequences of <=2 (quick) / <=3 (thorough) over 5 generated SML files + 1 non-SML payload, all 8^(k+1) noise placements (noise ending in 0x1b, partial start/end sequences), 5 sources x 4 buffer kinds, uniform and alternating choices of DecodedBytes/File/Parser x read/next/read_nb/next_nb for every layout and the full 6^(k+2) choice tree for three layouts per sequence; oracle: the abstract files in order, noise only as counts, None exactly at the end, and equality with decode+parse composed by hand", "§6 C10")
+    "file sequences of <=2 (quick) / <=3 (thorough) over 5 generated SML files + 1 non-SML payload, all 8^(k+1) noise placements (noise ending in 0x1b, partial start/end sequences), 8 sources (slice, two iterator flavours, io::Cursor, one-byte / chunked / interrupting io::Read, embedded-hal serial) x 4 buffer kinds, uniform and alternating choices of DecodedBytes/File/Parser x read/next/read_nb/next_nb for every layout and the full 6^(k+2) choice tree for three layouts per sequence; oracle: the abstract files in order, noise only as counts, None exactly at the end, and equality with decode+parse composed by hand", "§6 C10")
 add("C11", "E3", "fault_enumeration", "stateless deviation-bounded exploration of byte-source answers: every placement of <=k faults at the read() choice points of a controlled io::Read",
     "choice point = every io::Read::read call of the real reader; deviations WouldBlock / Interrupted (single and a burst of 300) / Other / BrokenPipe / TimedOut / Err(UnexpectedEof) / premature persistent EOF, and in single-deviation schedules every stable io::ErrorKind and every errno 1..=133; every schedule with <=3 (quick) / <=4 (thorough) deviations on 9 streams, io::Read and embedded-hal sources, placing a fault in every decoder phase, drivers next/read/next_nb/read_nb, run to completion; oracle: reference reader (would-block surfaces once with 0 and changes nothing, interrupted invisible, other error carries the exact pending count and continues like a fresh reader on the rest, EOF -> None iff nothing pending, persistently; the kind / value of every returned read error equals what the source raised); faults after 2^8 / 2^16 pending bytes; and the would-block / interrupted half again on sml-rs built with its default features (/verif/stdonly)", "§6 C11")
 add("C15", "E3", "model_checking", "exhaustive enumeration of symbol streams through all seven front-ends in lock step",
